@@ -132,20 +132,20 @@ theorem lookup_touch_cases (k k' : Str) (e e' : Entry) (c : Cache) (h : lookup k
 
 /-- the key an operation addresses (send and verify build it with their own format) -/
 def Op.key (c : Cfg) : Op → Str
-  | .send a p => mkKey c.sendKeyFmt a p
-  | .verify a p _ _ => mkKey c.verifyKeyFmt a p
+  | .send _ a p => mkKey c.sendKeyFmt a p
+  | .verify _ a p _ _ => mkKey c.verifyKeyFmt a p
 
 def Op.isSend : Op → Bool
-  | .send _ _ => true
-  | .verify _ _ _ _ => false
+  | .send _ _ _ => true
+  | .verify _ _ _ _ _ => false
 
 def Op.area : Op → Str
-  | .send a _ => a
-  | .verify a _ _ _ => a
+  | .send _ a _ => a
+  | .verify _ a _ _ _ => a
 
 def Op.pair : Op → Str × Str
-  | .send a p => (a, p)
-  | .verify a p _ _ => (a, p)
+  | .send _ a p => (a, p)
+  | .verify _ a p _ _ => (a, p)
 
 /-- attempt counter / send counter of a key (0 when absent) -/
 def vcOf (s : State) (k : Str) : Int := match lookup k s.cache with | some e => e.verifyCount | none => 0
@@ -154,75 +154,114 @@ def scOpt : Option Entry → Int
   | none => 0
 def scOf (s : State) (k : Str) : Int := scOpt (lookup k s.cache)
 
+/-! ### the clock -/
+
+@[simp] theorem advance_cache (t : Nat) (s : State) : (advance t s).cache = s.cache := rfl
+@[simp] theorem advance_nsent (t : Nat) (s : State) : (advance t s).nsent = s.nsent := rfl
+@[simp] theorem advance_now (t : Nat) (s : State) : (advance t s).now = max s.now t := rfl
+theorem advance_now_ge (t : Nat) (s : State) : s.now ≤ (advance t s).now := Nat.le_max_left _ _
+
+/-- the clock reading at which an operation happens -/
+def Op.time : Op → Nat
+  | .send t _ _ => t
+  | .verify t _ _ _ _ => t
+
 /-! ### one send -/
 
-/-- a send is either refused (or panics) and changes nothing, or `Set`s a fresh entry with zero attempts -/
-theorem sendK_cases (pr : Params) (s : State) (key ph : Str) :
-    ((sendK pr s key ph).2.accepted = none ∧ (sendK pr s key ph).1 = s) ∨
-    (∃ cnt : Int, (sendK pr s key ph).2.accepted = some (s.nsent + 1) ∧
-      (sendK pr s key ph).1 =
-        ⟨setLRU pr.cap key ⟨cnt + 1, 0, genCode pr ph (s.nsent + 1), s.nsent + 1⟩ s.cache, s.nsent + 1⟩ ∧
-      checkSend pr (lookup key s.cache) = .ok cnt) := by
+/-- elapsed time since the window start as `checkSend` sees it (a new entry starts its window now) -/
+def winElapsed (now : Nat) : Option Entry → Int
+  | some e => (now : Int) - e.counterTime
+  | none => 0
+def ctOpt (now : Nat) : Option Entry → Nat
+  | some e => e.counterTime
+  | none => now
+
+/-- a send is either refused (or panics) and changes nothing, or `Set`s a fresh entry with zero attempts, stamped now -/
+theorem sendK_cases (c : Cfg) (pr : Params) (s : State) (key ph : Str) :
+    ((sendK c pr s key ph).2.accepted = none ∧ (sendK c pr s key ph).1 = s) ∨
+    (∃ (cnt : Int) (ct : Nat), (sendK c pr s key ph).2.accepted = some (s.nsent + 1) ∧
+      (sendK c pr s key ph).1 =
+        ⟨setLRU pr.cap key ⟨cnt + 1, 0, genCode pr ph (s.nsent + 1), s.nsent + 1, s.now, ct⟩ s.cache, s.nsent + 1, s.now⟩ ∧
+      checkSend c pr s.now (lookup key s.cache) = .ok (cnt, ct)) := by
   unfold sendK
-  cases h : checkSend pr (lookup key s.cache) with
+  cases h : checkSend c pr s.now (lookup key s.cache) with
   | error r =>
     left
     refine ⟨?_, rfl⟩
     simp only
     unfold checkSend at h
     split at h <;> (repeat' split at h) <;> simp_all [SendResult.accepted] <;> (subst h; rfl)
-  | ok cnt =>
+  | ok v =>
+    obtain ⟨cnt, ct⟩ := v
     simp only
     split
     · left; exact ⟨rfl, rfl⟩
     · right
-      refine ⟨cnt, ?_, rfl, rfl⟩
+      refine ⟨cnt, ct, ?_, rfl, rfl⟩
       split <;> rfl
 
-/-- the counter a passing `checkSend` continues from -/
-theorem checkSend_ok_cnt (pr : Params) (e : Option Entry) (cnt : Int) (h : checkSend pr e = .ok cnt) :
-    (pr.windowRefreshes = true ∧ cnt = 0) ∨
-    (pr.windowRefreshes = false ∧ cnt ≤ pr.maxCount ∧ cnt = scOpt e) := by
+/-- what a passing `checkSend` continues from: a refreshed window (counter 0, window starts now), or the old window with a
+    counter that is still within `MaxCount` -/
+theorem checkSend_ok (c : Cfg) (pr : Params) (now : Nat) (e : Option Entry) (cnt : Int) (ct : Nat)
+    (h : checkSend c pr now e = .ok (cnt, ct)) :
+    (c.windowCmp.holds (winElapsed now e) pr.window = true ∧ cnt = 0 ∧ ct = now) ∨
+    (c.windowCmp.holds (winElapsed now e) pr.window = false ∧ cnt ≤ pr.maxCount ∧ cnt = scOpt e ∧ ct = ctOpt now e) := by
   unfold checkSend at h
   cases e with
   | none =>
     simp only at h
     split at h
-    · left; simp_all
+    · left; simp_all [winElapsed]
     · split at h
       · cases h
-      · right; simp_all [scOpt] <;> omega
+      · right; simp_all [scOpt, winElapsed, ctOpt] <;> omega
   | some e =>
     simp only at h
     split at h
     · cases h
     · split at h
-      · left; simp_all
+      · left; simp_all [winElapsed]
       · split at h
         · cases h
-        · right; simp_all [scOpt] <;> omega
+        · right; simp_all [scOpt, winElapsed, ctOpt] <;> omega
 
-theorem checkSend_minb (pr : Params) (e : Entry) (h : pr.minIntervalBlocks = true) :
-    checkSend pr (some e) = .error .tooFreq := by
-  simp [checkSend, h]
+/-- refused as too frequent exactly when the comparison with the stored `setTime` says so; never for a new entry -/
+theorem checkSend_tooFreq_iff (c : Cfg) (pr : Params) (now : Nat) (e : Entry) :
+    checkSend c pr now (some e) = .error .tooFreq ↔ c.minIntervalCmp.holds ((now : Int) - e.setTime) pr.minInterval = true := by
+  unfold checkSend
+  simp only
+  split
+  · simp_all
+  · split
+    · simp_all
+    · split <;> simp_all
+
+theorem checkSend_none_not_tooFreq (c : Cfg) (pr : Params) (now : Nat) :
+    checkSend c pr now none ≠ .error .tooFreq := by
+  unfold checkSend
+  simp only
+  split
+  · simp
+  · split <;> simp
 
 /-! ### one verify -/
 
-theorem verifyK_none (pr : Params) (s : State) (key : Str) (code : Code) (hash : Nat)
-    (h : lookup key s.cache = none) : verifyK pr s key code hash = (s, .notExist) := by
+theorem verifyK_none (c : Cfg) (pr : Params) (s : State) (key : Str) (code : Code) (hash : Nat)
+    (h : lookup key s.cache = none) : verifyK c pr s key code hash = (s, .notExist) := by
   simp [verifyK, h]
 
-theorem verifyK_some (pr : Params) (s : State) (key : Str) (code : Code) (hash : Nat) (e : Entry)
+theorem verifyK_some (c : Cfg) (pr : Params) (s : State) (key : Str) (code : Code) (hash : Nat) (e : Entry)
     (h : lookup key s.cache = some e) :
-    verifyK pr s key code hash =
-      (⟨touch key { e with verifyCount := e.verifyCount + 1 } s.cache, s.nsent⟩,
-        checkVerify pr { e with verifyCount := e.verifyCount + 1 } code hash) := by
+    verifyK c pr s key code hash =
+      (⟨touch key { e with verifyCount := e.verifyCount + 1 } s.cache, s.nsent, s.now⟩,
+        checkVerify c pr s.now { e with verifyCount := e.verifyCount + 1 } code hash) := by
   simp [verifyK, h]
 
-/-- `ok` needs the stored code, the stored hash, a live code and an attempt number within the limit -/
-theorem checkVerify_ok_iff (pr : Params) (e : Entry) (code : Code) (hash : Nat) :
-    checkVerify pr e code hash = .ok ↔
-      (e.verifyCount ≤ pr.maxVerify ∧ e.code = code ∧ e.hash = hash ∧ pr.ttlExpired = false) := by
+/-- `ok` needs the stored code, the stored hash, a live code (as the source compares) and an attempt number within the limit -/
+theorem checkVerify_ok_iff (c : Cfg) (pr : Params) (now : Nat) (e : Entry) (code : Code) (hash : Nat) :
+    checkVerify c pr now e code hash = .ok ↔
+      (e.verifyCount ≤ pr.maxVerify ∧ e.code = code ∧ e.hash = hash ∧
+        c.ttlCmp.holds ((now : Int) - e.setTime) pr.ttl = false) := by
   unfold checkVerify
   split
   · simp; omega
@@ -232,22 +271,30 @@ theorem checkVerify_ok_iff (pr : Params) (e : Entry) (code : Code) (hash : Nat) 
       · simp_all
       · split <;> simp_all <;> omega
 
+/-- right code, right hash, attempts left: the answer is decided by the lifetime comparison alone -/
+theorem checkVerify_right (c : Cfg) (pr : Params) (now : Nat) (e : Entry) (h : e.verifyCount ≤ pr.maxVerify) :
+    checkVerify c pr now e e.code e.hash =
+      if c.ttlCmp.holds ((now : Int) - e.setTime) pr.ttl then .timeout else .ok := by
+  unfold checkVerify
+  rw [if_neg (by omega)]
+  simp
+
 /-! ### one step, seen from a key -/
 
 /-- an operation on another key leaves the binding of `k` as it was, or evicts it -/
 theorem step_lookup_other (c : Cfg) (pr : Params) (s : State) (o : Op) (k : Str) (h : o.key c ≠ k) :
     lookup k (step c pr s o).1.cache = none ∨ lookup k (step c pr s o).1.cache = lookup k s.cache := by
   cases o with
-  | send a p =>
+  | send t a p =>
     simp only [step, send]
-    rcases sendK_cases pr s (mkKey c.sendKeyFmt a p) p with ⟨_, h2⟩ | ⟨cnt, _, h2, _⟩
+    rcases sendK_cases c pr (advance t s) (mkKey c.sendKeyFmt a p) p with ⟨_, h2⟩ | ⟨cnt, ct, _, h2, _⟩
     · rw [h2]; exact Or.inr rfl
     · rw [h2]; exact lookup_setLRU_ne (fun e => h e.symm) _ _ _
-  | verify a p code hash =>
+  | verify t a p code hash =>
     simp only [step, verify]
-    cases hl : lookup (mkKey c.verifyKeyFmt a p) s.cache with
-    | none => rw [verifyK_none _ _ _ _ _ hl]; exact Or.inr rfl
-    | some e => rw [verifyK_some _ _ _ _ _ e hl]; exact Or.inr (lookup_touch_ne (fun e => h e.symm) _ _)
+    cases hl : lookup (mkKey c.verifyKeyFmt a p) (advance t s).cache with
+    | none => rw [verifyK_none _ _ _ _ _ _ hl]; exact Or.inr rfl
+    | some e => rw [verifyK_some _ _ _ _ _ _ e hl]; exact Or.inr (lookup_touch_ne (fun e => h e.symm) _ _)
 
 /-- an absent key stays absent under operations on other keys -/
 theorem step_lookup_other_none (c : Cfg) (pr : Params) (s : State) (o : Op) (k : Str) (h : o.key c ≠ k)
@@ -258,14 +305,26 @@ theorem step_lookup_other_none (c : Cfg) (pr : Params) (s : State) (o : Op) (k :
 
 theorem step_nsent_mono (c : Cfg) (pr : Params) (s : State) (o : Op) : s.nsent ≤ (step c pr s o).1.nsent := by
   cases o with
-  | send a p =>
+  | send t a p =>
     simp only [step, send]
-    rcases sendK_cases pr s (mkKey c.sendKeyFmt a p) p with ⟨_, h2⟩ | ⟨cnt, _, h2, _⟩ <;> rw [h2] <;> simp
-  | verify a p code hash =>
+    rcases sendK_cases c pr (advance t s) (mkKey c.sendKeyFmt a p) p with ⟨_, h2⟩ | ⟨cnt, ct, _, h2, _⟩ <;> rw [h2] <;> simp
+  | verify t a p code hash =>
     simp only [step, verify]
-    cases hl : lookup (mkKey c.verifyKeyFmt a p) s.cache with
-    | none => rw [verifyK_none _ _ _ _ _ hl]; exact Nat.le_refl _
-    | some e => rw [verifyK_some _ _ _ _ _ e hl]; exact Nat.le_refl _
+    cases hl : lookup (mkKey c.verifyKeyFmt a p) (advance t s).cache with
+    | none => rw [verifyK_none _ _ _ _ _ _ hl]; exact Nat.le_refl _
+    | some e => rw [verifyK_some _ _ _ _ _ _ e hl]; exact Nat.le_refl _
+
+/-- the clock never goes back, and after an operation it reads at least the operation's time -/
+theorem step_now (c : Cfg) (pr : Params) (s : State) (o : Op) : (step c pr s o).1.now = max s.now o.time := by
+  cases o with
+  | send t a p =>
+    simp only [step, send, Op.time]
+    rcases sendK_cases c pr (advance t s) (mkKey c.sendKeyFmt a p) p with ⟨_, h2⟩ | ⟨cnt, ct, _, h2, _⟩ <;> rw [h2] <;> rfl
+  | verify t a p code hash =>
+    simp only [step, verify, Op.time]
+    cases hl : lookup (mkKey c.verifyKeyFmt a p) (advance t s).cache with
+    | none => rw [verifyK_none _ _ _ _ _ _ hl]; rfl
+    | some e => rw [verifyK_some _ _ _ _ _ _ e hl]; rfl
 
 /-! ### keys -/
 
@@ -344,10 +403,10 @@ theorem key_eq_iff_pair (c : Cfg) (hc : Proved c) (o : Op) (a p : Str) :
     o.key c = mkKey .lenPrefix a p ↔ o.pair = (a, p) := by
   obtain ⟨h1, h2, _⟩ := hc
   cases o with
-  | send a' p' =>
+  | send t a' p' =>
     simp only [Op.key, Op.pair, h1, Prod.mk.injEq]
     exact ⟨fun h => mkKey_lenPrefix_inj a' a p' p h, fun ⟨x, y⟩ => by rw [x, y]⟩
-  | verify a' p' code hash =>
+  | verify t a' p' code hash =>
     simp only [Op.key, Op.pair, h2, Prod.mk.injEq]
     exact ⟨fun h => mkKey_lenPrefix_inj a' a p' p h, fun ⟨x, y⟩ => by rw [x, y]⟩
 
